@@ -4,7 +4,7 @@
    (model/TypedValue.v, tied by differential runs).  Only statements; proofs in proofs/TypedValueProofs.v. *)
 From Coq Require Import List ZArith Bool.
 From Basyx Require Import model.ConstraintsBase model.TypedBase gen.Gen_IntRanges gen.Gen_TypedValues model.TypedValue
-  gen.Gen_TypedSetters proofs.TypedValueProofs.
+  gen.Gen_TypedSetters model.TypedItems proofs.TypedValueProofs.
 Import ListNotations.
 
 (* the source's class statements are the specified hierarchy; XSD_TYPE_NAMES names exactly the 31 data types *)
@@ -104,9 +104,9 @@ Print Assumptions C02_tv_range_history.
 (* the setters as translated from submodel.py / base.py on every run ARE the steps of the state machines above *)
 Theorem C02_tv_setters_property : forall h, hopt h = false ->
   (forall v, hstep h (HSetValue v) = holder_of h (set_Property_value (htype h) (hval h) None v)) /\
-  (forall t, hstep h (HSetType t) = holder_of h (set_Property_value_type (htype h) (hval h) None t)) /\
+  (forall t, hstep h (HSetType t) = holder_of h (set_Property_value_type (htype h) (hval h) None false t)) /\
   (forall v, hstep h (HSetValue v) = holder_of h (set_Qualifier_value (htype h) (hval h) None v)) /\
-  (forall t, hstep h (HSetType t) = holder_of h (set_Qualifier_value_type (htype h) (hval h) None t)).
+  (forall t, hstep h (HSetType t) = holder_of h (set_Qualifier_value_type (htype h) (hval h) None false t)).
 Proof.
   intros h Ho. repeat split; intros;
     first [exact (gen_property_value h _ Ho) | exact (gen_property_value_type h _ Ho)].
@@ -114,15 +114,29 @@ Qed.
 Print Assumptions C02_tv_setters_property.
 Theorem C02_tv_setters_extension : forall h, hopt h = true ->
   (forall v, hstep h (HSetValue v) = holder_of h (set_Extension_value (htype h) (hval h) None v)) /\
-  (forall t, hstep h (HSetType t) = holder_of h (set_Extension_value_type (htype h) (hval h) None t)).
+  (forall t, hstep h (HSetType t) = holder_of h (set_Extension_value_type (htype h) (hval h) None false t)).
 Proof. intros h Ho. split; intros; [exact (gen_extension_value h _ Ho) | exact (gen_extension_value_type h _ Ho)]. Qed.
 Print Assumptions C02_tv_setters_extension.
 Theorem C02_tv_setters_range : forall r,
   (forall v, range_of r (set_Range_min (Some (rtype r)) (rmin r) (rmax r) v) = Some (rstep r (RSetMin v))) /\
   (forall v, range_of r (set_Range_max (Some (rtype r)) (rmin r) (rmax r) v) = Some (rstep r (RSetMax v))) /\
-  (forall t, range_of r (set_Range_value_type (Some (rtype r)) (rmin r) (rmax r) (Some t)) = Some (rstep r (RSetType t))).
+  (forall t, range_of r (set_Range_value_type (Some (rtype r)) (rmin r) (rmax r) false (Some t)) = Some (rstep r (RSetType t))).
 Proof. intros r. repeat split; intros; [apply gen_range_min | apply gen_range_max | apply gen_range_value_type]. Qed.
 Print Assumptions C02_tv_setters_range.
+
+(* AASd-109 under assignment to value_type: an item of a SubmodelElementList of Properties / Ranges announcing vtle can only
+   be "re-typed" to vtle itself; any other type is refused with AASd-109 (an inr result leaves the fields as they were) *)
+Theorem C02_tv_list_item_retype : forall vtle ty a b t,
+  (forall ty' a' b', retype_property_item vtle ty a t = inl (ty', a', b') -> ty' = Some vtle) /\
+  (forall ty' a' b', retype_range_item vtle ty a b t = inl (ty', a', b') -> ty' = Some vtle) /\
+  (t <> vtle -> retype_property_item vtle ty a t = inr (EAASd 109) /\ retype_range_item vtle ty a b t = inr (EAASd 109)).
+Proof.
+  intros vtle ty a b t. split; [|split].
+  - intros ty' a' b'. exact (proj1 (retype_item_keeps_109 vtle ty a b t ty' a' b')).
+  - intros ty' a' b'. exact (proj2 (retype_item_keeps_109 vtle ty a b t ty' a' b')).
+  - exact (retype_item_refused_unchanged vtle ty a b t).
+Qed.
+Print Assumptions C02_tv_list_item_retype.
 
 Theorem C02_tv_example :
   class_inv ex_v = true /\
